@@ -131,7 +131,7 @@ func (p *Program) runOne(h *ssa.Function, prefix []Decision, solver *smt.Solver,
 		bounds: map[string]int64{}, calls: map[string]bool{}, tier: opt.Tier, needWit: needWit,
 		knownKeys: opt.KnownKeys, stubs: map[string]bool{},
 		freshCells: map[*value]bool{}, freshMaps: map[*omap]bool{}, noMergeAt: map[*ssa.If]bool{}, mergeFail: map[string]int{},
-		noMerge: opt.NoMerge,
+		noMerge: opt.NoMerge, noSlice: os.Getenv("VERIF_NOSLICE") != "",
 	}
 	i := p.newInterp(x)
 	x.curPos = func() string { return i.position() }
